@@ -25,8 +25,10 @@ def r1_status(run, F):
     m = F.bin.bodies.get("main")
     run.require(m is not None, "main not found in bin crate")
     tail = hirq.unwrap_trivial(m["hir"].get("e", {}))
-    first = [n for n in walk(m["hir"]) if n.get("k") == "Let" and n["pat"].get("name") == "result"]
-    ok = hirq.local_name_of(tail) == "result" and first and hirq.callee(first[0]["init"]) == "do_main"
+    # main's value is do_main()'s Result: the tail expression is the call itself or a local initialised from it (its name is free)
+    from rules import origins as _or
+    o = _or.origins(m["hir"], tail, m.get("params", ())) if tail else set()
+    ok = ("call", "do_main") in o and not any(k[0] == "call" and str(k[1]).split("::")[-1] in ("Ok", "Err", "map", "or", "and_then", "map_err") for k in o)
     run.ob("R1-EXIT-STATUS", "main returns do_main()", bool(ok), F.where(m), "the process status is do_main()'s Result")
     c = F.bin.bodies.get("compile_to_ir_using_alpha")
     run.require(c is not None, "compile_to_ir_using_alpha not found (cfg B)")
